@@ -179,7 +179,9 @@ def gen_A(key, op):
             p2 = json.loads(json.dumps({k: v for k, v in scn.items() if k not in ("pair", "pipe")}))
             p2["share_cube"] = True
             mode = rng.random()
-            if op == "zonal_mean" and mode < 0.3:
+            if op == "zonal_mean" and mode < 0.3 and not (S.j2arr(p2["secondary"]["zones"]) == p2["params"]["znodata"]).any():
+                # (only when no cell carries the old marker: such a cell would become a zone id
+                # outside 0..n-1, i.e. out-of-contract input -- it crashed a worker once, 9.4)
                 mode = 0.9  # every kernel argument, not only the arrays, is part of a task's identity
             if mode < 0.5 and p2.get("secondary"):
                 # same parameters, every secondary raster shuffled (same value set, dtype, shape)
@@ -195,7 +197,7 @@ def gen_A(key, op):
                     p2[k] = c[k]
                 if "secondary_order" in c:
                     p2["secondary_order"] = c["secondary_order"]
-            elif mode < 0.93 and op == "zonal_mean":
+            elif mode < 0.93 and op == "zonal_mean" and not (S.j2arr(p2["secondary"]["zones"]) == p2["params"]["znodata"]).any():
                 # same cube, same zones raster, only the zones' nodata marker differs (a zone id is
                 # declared "no zone"): every argument of the kernel must be part of the task identity
                 p2["params"]["znodata"] = rng.randrange(p2["params"]["nz"])
